@@ -317,3 +317,89 @@ func render(v reflect.Value) string {
 	}
 	return fmt.Sprintf("%v", v)
 }
+
+// ---------------------------------------------------------------------------------------------
+// explicit-state search
+
+// Transition is one labelled call of the code under test; Run returns a rendering of everything
+// the call yields (verdict, value, re-encoding).
+type Transition struct {
+	Label string
+	Run   func() string
+}
+
+// Witness: transition Index yields Want in the initial state and Got after Path.
+type Witness struct {
+	Index     int
+	Path      []int
+	Want, Got string
+}
+
+// Result of a search.
+type Result struct {
+	States      int
+	Transitions int64
+	Compared    int64
+	Capped      string
+	Witnesses   []Witness // at most one per class (see Search)
+	Locations   int
+}
+
+// Search explores the states of the variables under roots that the transitions can reach, breadth
+// first from the current (initial) state, and checks the invariant "every transition yields in
+// every reachable state what it yields in the initial state". class(i) groups transitions for
+// reporting (one witness per class). The initial state is restored before Search returns.
+func Search(roots []interface{}, ts []Transition, maxStates, maxDepth int, class func(i int) string) Result {
+	type node struct {
+		snap  *Snap
+		path  []int
+		depth int
+	}
+	s0 := Take(roots)
+	h0 := Hash(roots)
+	res := Result{Locations: s0.Size()}
+	nodes := []*node{{snap: s0}}
+	seen := map[uint64]bool{h0: true}
+	base := make([]string, len(ts))
+	reported := map[string]bool{}
+	for qi := 0; qi < len(nodes); qi++ {
+		nd := nodes[qi]
+		nd.snap.Restore()
+		cur := Hash(roots)
+		last := cur
+		for i := range ts {
+			if last != cur {
+				nd.snap.Restore()
+			}
+			r := ts[i].Run()
+			res.Transitions++
+			if qi == 0 {
+				base[i] = r
+			} else {
+				res.Compared++
+				if r != base[i] {
+					if c := class(i); !reported[c] {
+						reported[c] = true
+						res.Witnesses = append(res.Witnesses, Witness{Index: i, Path: append([]int(nil), nd.path...), Want: base[i], Got: r})
+					}
+				}
+			}
+			h := Hash(roots)
+			last = h
+			if h != cur && !seen[h] {
+				seen[h] = true
+				switch {
+				case nd.depth+1 > maxDepth:
+					res.Capped = fmt.Sprintf("states deeper than %d steps not expanded", maxDepth)
+				case len(nodes) >= maxStates:
+					res.Capped = fmt.Sprintf("more than %d distinct states: further ones not expanded", maxStates)
+				default:
+					nodes = append(nodes, &node{snap: Take(roots), path: append(append([]int(nil), nd.path...), i), depth: nd.depth + 1})
+				}
+			}
+		}
+	}
+	s0.Restore()
+	res.States = len(seen)
+	return res
+}
